@@ -6,6 +6,7 @@ pub mod c13;
 pub mod c16;
 pub mod c17;
 pub mod c18;
+pub mod c19;
 pub mod common;
 
 use crate::drv::{Ctx, Variant};
@@ -20,6 +21,7 @@ pub fn variants(prop: &str) -> Vec<&'static Variant> {
         "C16" => c16::variants(),
         "C17" => c17::variants(),
         "C18" => c18::variants(),
+        "C19" => c19::variants(),
         _ => vec![],
     }
 }
@@ -34,6 +36,7 @@ pub fn run(prop: &str, ctx: &Ctx) -> Option<i32> {
         "C16" => c16::run(ctx),
         "C17" => c17::run(ctx),
         "C18" => c18::run(ctx),
+        "C19" => c19::run(ctx),
         _ => return None,
     })
 }
